@@ -153,7 +153,7 @@ fn run_e1_property(id: &str, thorough: bool, ev: &mut Evidence, t0: Instant) {
     let checks = check_bit(id);
     let cap = if thorough { Duration::from_secs(3300) } else { Duration::from_secs(50) };
     let deadline = Some(t0 + cap);
-    let seeds = families::fs(&verif_dir().join("seeds"));
+    let seeds = families::fs_with(&verif_dir().join("seeds"), thorough);
     let mut fams: Vec<families::Family> = vec![families::f1(), families::f2(), families::fd(2, 2, families::all_anchors(2, 2), 3, "all 49 anchors"), seeds, families::fsetup(if thorough { 12 } else { 4 }, if thorough { 8 } else { 3 }), if thorough { families::fplus(families::interior_squares(), 3, "every interior square") } else { families::fplus(vec![18, 21, 42, 45, 49, 35, 34, 14], 3, "the 4 traps, b2, d4, c4, g7") }];
     if thorough {
         fams.push(families::f3w(None, &families::ALL_KINDS, "all 36 windows, all 12 kinds"));
@@ -300,7 +300,7 @@ fn genseeds() {
     let mut out = String::new();
     let mut count = 0;
     for (oi, o) in openings.iter().enumerate() {
-        for game in 0..6u64 {
+        for game in 0..10u64 {
             let mut gs = GameState::initial();
             let gold: String = o.chars().collect();
             let silver: String = openings[(oi + game as usize) % 2].chars().collect();
@@ -327,7 +327,7 @@ fn genseeds() {
                 gs = gs.take_action(&va[k]);
                 if gs.is_p1_turn_to_move() != before {
                     turns += 1;
-                    if [12, 30, 55, 85].contains(&turns) && gs.is_terminal().is_none() {
+                    if [8, 16, 26, 40, 60, 85].contains(&turns) && gs.is_terminal().is_none() {
                         out.push_str(&format!("# generated: opening {} game {} after {} turns\n{}", oi, game, turns, gs));
                         count += 1;
                     }
